@@ -12,6 +12,7 @@ import (
 	"encoding/hex"
 	"encoding/json"
 	"fmt"
+	"io"
 	"os"
 	"os/exec"
 	"path/filepath"
@@ -256,14 +257,17 @@ func c05Round(R *vkit.Report, c c05Case, scope string, puts [][64]byte, queries 
 	if err != nil {
 		return fail("writer-error", "sealed file unreadable: "+err.Error())
 	}
-	for _, access := range []string{"Open(mmap)", "NewReader(ReaderAt)"} {
+	for _, access := range []string{"Open(mmap)", "NewReader(ReaderAt)", "NewReader(ReaderAt reporting io.EOF with the last bytes)"} {
 		var r *Reader
 		err, pn = c05Guard(access, func() error {
 			var e error
-			if access == "Open(mmap)" {
+			switch access {
+			case "Open(mmap)":
 				r, e = Open(path)
-			} else {
+			case "NewReader(ReaderAt)":
 				r, e = NewReader(bytes.NewReader(data))
+			default:
+				r, e = NewReader(c05EagerEOF{bytes.NewReader(data)})
 			}
 			return e
 		})
@@ -514,7 +518,7 @@ func TestVerif_C05(t *testing.T) {
 			os.RemoveAll(c05Scratch)
 		}
 	}()
-	R.Rule = "reference model = per two-byte prefix the set of xxhash64 values of the added signatures. (small-universe) every multiset with multiplicity 0..2 over a universe of signatures on two prefixes x two insertion orders x metadata of 0/1/3 pairs, one real writer each; (populations) one file in which prefix p holds exactly p signatures for every p = 0..P plus populations 2^k-1, 2^k, 2^k+1 up to 4097, and a mirrored file with every signature put twice. After Seal every added signature must be present through Open (mmap) and through NewReader over an in-memory ReaderAt, never-added signatures whose hash differs from all added ones of the prefix must be absent, and Writer.Has (before and after Seal) must agree with the file. One evaluation = one writer (small-universe) or one (prefix, population) pair (populations); non-trivial = a duplicate or at least two signatures in one prefix."
+	R.Rule = "reference model = per two-byte prefix the set of xxhash64 values of the added signatures. (small-universe) every multiset with multiplicity 0..2 over a universe of signatures on two prefixes x two insertion orders x metadata of 0/1/3 pairs, one real writer each; (populations) one file in which prefix p holds exactly p signatures for every p = 0..P plus populations 2^k-1, 2^k, 2^k+1 up to 4097, and a mirrored file with every signature put twice. After Seal every added signature must be present through Open (mmap), through NewReader over an in-memory ReaderAt and over a ReaderAt that reports io.EOF together with the last bytes of the input, never-added signatures whose hash differs from all added ones of the prefix must be absent, and Writer.Has (before and after Seal) must agree with the file. One evaluation = one writer (small-universe) or one (prefix, population) pair (populations); non-trivial = a duplicate or at least two signatures in one prefix."
 	// child mode: exactly one populations case, report goes to the parent
 	if cj := os.Getenv("VERIF_C05_CHILD"); cj != "" {
 		var c c05Case
@@ -625,4 +629,16 @@ func TestVerif_C05(t *testing.T) {
 	if c05PopInChild() && doSmall {
 		R.Assume("small-universe writers run with the capacity hint of newPrefixToHashes shrunk from 16000 to 16 (pre-allocation only, no semantic effect); the populations variant runs the unmodified constant")
 	}
+}
+
+// c05EagerEOF is a conforming io.ReaderAt of the other kind: a read that ends exactly at the end of the input
+// returns all the bytes asked for together with io.EOF ("ReadAt may return either err == EOF or err == nil").
+type c05EagerEOF struct{ r *bytes.Reader }
+
+func (e c05EagerEOF) ReadAt(p []byte, off int64) (int, error) {
+	n, err := e.r.ReadAt(p, off)
+	if err == nil && off+int64(n) == e.r.Size() {
+		err = io.EOF
+	}
+	return n, err
 }
